@@ -23,6 +23,13 @@ pub fn special(
             out.sort();
             Ok(out)
         }
+        // set an environment variable in this (forked) case process only
+        "setenv" => {
+            if _args.len() == 2 {
+                std::env::set_var(&_args[0], &_args[1]);
+            }
+            Ok(vec![])
+        }
         _ => Err(("Harness".into(), format!("unknown special {}", name))),
     }
 }
